@@ -10,10 +10,10 @@ import (
 	"os/exec"
 	"path/filepath"
 	"regexp"
-	"runtime"
 	"sort"
 	"strconv"
 	"strings"
+	"sync"
 	"time"
 
 	"seqverif/internal/kit"
@@ -43,8 +43,12 @@ func main() {
 		list      = flag.Bool("list", false, "list obligations")
 		nowrite   = flag.Bool("n", false, "do not write evidence")
 		lockstats = flag.String("lockstats", "", "discovery aid: comma-separated repo packages whose mutex-owning structs are profiled")
+		control   = flag.String("control", "", "internal: run the property's obligations on the tree with this patch applied as an overlay and print the violation keys")
 	)
 	flag.Parse()
+	if *control != "" {
+		os.Exit(runControl(*repo, *verif, *prop, *control))
+	}
 	if *lockstats != "" {
 		prog, err := kit.Load(*repo, nil, nil)
 		if err != nil {
@@ -81,6 +85,9 @@ func main() {
 
 // expectedSilent: seeded changes that are documented as outside the claimed clauses (DESIGN.md §9).
 var expectedSilent = map[string]int{"C12": 1}
+
+// controlPar: control child processes run at a time (each ≈ 1 GB).
+const controlPar = 6
 
 // overlayFromPatch applies a unified diff to copies of the files it touches
 // (in a scratch directory that is removed again) and returns the patched
@@ -130,6 +137,91 @@ func overlayFromPatch(repo, patch string) (map[string][]byte, error) {
 		ov[filepath.Join(repo, f)] = b
 	}
 	return ov, nil
+}
+
+// runControl is the child side of a control: KEY lines for every violation that is not a listed known finding.
+func runControl(repo, verif, id, patch string) int {
+	info := props.Get(id)
+	if info == nil {
+		fmt.Println("SKIP\tunknown property")
+		return 0
+	}
+	ov, err := overlayFromPatch(repo, patch)
+	if err != nil {
+		fmt.Printf("SKIP\t%v\n", err)
+		return 0
+	}
+	pm, err := kit.Load(repo, ov, nil)
+	if err != nil {
+		fmt.Println("SKIP\tdoes not type-check")
+		return 0
+	}
+	var kf knownFile
+	if data, err := os.ReadFile(filepath.Join(verif, "known_findings.json")); err == nil {
+		json.Unmarshal(data, &kf)
+	}
+	for _, ob := range info.Obs() {
+		r := pm.Run(ob)
+		for _, v := range r.Viols {
+			known := false
+			for _, k := range kf.Findings {
+				if k.Property == id && k.Key == v.Key && k.Status == "known" {
+					known = true
+				}
+			}
+			if !known {
+				fmt.Printf("KEY\t%s\n", v.Key)
+			}
+		}
+	}
+	fmt.Println("DONE")
+	return 0
+}
+
+type controlResult struct {
+	name, patch string
+	keys        []string
+	skipped     string
+}
+
+// runControls runs one child per patch, at most par at a time.
+func runControls(repo, verif, id string, patches []string, par int) []controlResult {
+	out := make([]controlResult, len(patches))
+	sem := make(chan struct{}, par)
+	var wg sync.WaitGroup
+	self, err := os.Executable()
+	if err != nil {
+		self = os.Args[0]
+	}
+	for i, patch := range patches {
+		wg.Add(1)
+		go func(i int, patch string) {
+			defer wg.Done()
+			sem <- struct{}{}
+			defer func() { <-sem }()
+			res := controlResult{name: filepath.Base(filepath.Dir(patch)), patch: patch}
+			cmd := exec.Command(self, "-property", id, "-control", patch, "-repo", repo, "-verif", verif)
+			data, err := cmd.Output()
+			done := false
+			for _, l := range strings.Split(string(data), "\n") {
+				switch {
+				case strings.HasPrefix(l, "KEY\t"):
+					res.keys = append(res.keys, strings.TrimPrefix(l, "KEY\t"))
+				case strings.HasPrefix(l, "SKIP\t"):
+					res.skipped = strings.TrimPrefix(l, "SKIP\t")
+					done = true
+				case l == "DONE":
+					done = true
+				}
+			}
+			if err != nil || !done {
+				res.skipped = fmt.Sprintf("control process failed: %v", err)
+			}
+			out[i] = res
+		}(i, patch)
+	}
+	wg.Wait()
+	return out
 }
 
 var unsafeRe = regexp.MustCompile(`[^A-Za-z0-9_.-]+`)
@@ -288,56 +380,36 @@ func run(repo, verif string, ids []string, tier, onlyOb string, nowrite, list bo
 			fired, silent, skipped := 0, 0, 0
 			seeds, _ := filepath.Glob(filepath.Join(verif, "seeded", id+"-*", "patch.diff"))
 			sort.Strings(seeds)
-			for _, patch := range seeds {
-				name := filepath.Base(filepath.Dir(patch))
-				ov, err := overlayFromPatch(repo, patch)
-				if err != nil {
-					skipped++
-					fmt.Printf("  control %s: skipped (%v)\n", name, err)
-					controls = append(controls, map[string]any{"control": "seeded change " + name, "result": "skipped: " + err.Error()})
-					continue
+			onBase := func(key string) bool {
+				for _, bv := range violOut {
+					if bv.Key == key {
+						return true
+					}
 				}
-				pm, err := kit.Load(repo, ov, nil)
-				if err != nil {
+				return false
+			}
+			for _, res := range runControls(repo, verif, id, seeds, controlPar) {
+				if res.skipped != "" {
 					skipped++
-					fmt.Printf("  control %s: skipped (does not load: %v)\n", name, err)
-					controls = append(controls, map[string]any{"control": "seeded change " + name, "result": "skipped: does not type-check"})
+					fmt.Printf("  control %s: skipped (%s)\n", res.name, res.skipped)
+					controls = append(controls, map[string]any{"control": "seeded change " + res.name, "result": "skipped: " + res.skipped})
 					continue
 				}
 				var by []string
-				for _, ob := range obs {
-					r := pm.Run(ob)
-					for _, v := range r.Viols {
-						known := false
-						for _, k := range kf.Findings {
-							if k.Property == id && k.Key == v.Key && k.Status == "known" {
-								known = true
-							}
-						}
-						// a report that also exists on the unchanged tree does not count
-						onBase := false
-						for _, bv := range violOut {
-							if bv.Key == v.Key {
-								onBase = true
-							}
-						}
-						if !known && !onBase {
-							by = append(by, v.Key)
-						}
+				for _, k := range res.keys {
+					// a report that also exists on the unchanged tree does not count
+					if !onBase(k) {
+						by = append(by, k)
 					}
 				}
-				props.Forget(pm)
-				pm = nil
-				kit.Current = prog
-				runtime.GC()
 				if len(by) > 0 {
 					fired++
-					fmt.Printf("  control %s: reported by %s\n", name, by[0])
-					controls = append(controls, map[string]any{"control": "seeded change " + name, "result": "reported", "by": by})
+					fmt.Printf("  control %s: reported by %s\n", res.name, by[0])
+					controls = append(controls, map[string]any{"control": "seeded change " + res.name, "result": "reported", "by": by})
 				} else {
 					silent++
-					fmt.Printf("  control %s: NOT reported\n", name)
-					controls = append(controls, map[string]any{"control": "seeded change " + name, "result": "not reported"})
+					fmt.Printf("  control %s: NOT reported\n", res.name)
+					controls = append(controls, map[string]any{"control": "seeded change " + res.name, "result": "not reported"})
 				}
 			}
 			fmt.Printf("  thorough: %d seeded controls reported, %d not reported, %d skipped\n", fired, silent, skipped)
@@ -365,62 +437,41 @@ func run(repo, verif string, ids []string, tier, onlyOb string, nowrite, list bo
 			refs, _ := filepath.Glob(filepath.Join(verif, "refactors", "*", "patch.diff"))
 			sort.Strings(refs)
 			quiet, noisy, skippedR := 0, 0, 0
+			var relevant []string
 			for _, patch := range refs {
-				name := filepath.Base(filepath.Dir(patch))
 				data, _ := os.ReadFile(patch)
-				touches := false
 				for _, l := range strings.Split(string(data), "\n") {
 					if strings.HasPrefix(l, "+++ b/") && siteFiles[strings.TrimPrefix(l, "+++ b/")] {
-						touches = true
+						relevant = append(relevant, patch)
+						break
 					}
 				}
-				if !touches {
-					continue
-				}
-				ov, err := overlayFromPatch(repo, patch)
-				if err != nil {
+			}
+			for _, res := range runControls(repo, verif, id, relevant, controlPar) {
+				if res.skipped != "" {
 					skippedR++
-					controls = append(controls, map[string]any{"control": "refactoring " + name, "result": "skipped: " + err.Error()})
-					continue
-				}
-				pm, err := kit.Load(repo, ov, nil)
-				if err != nil {
-					skippedR++
-					controls = append(controls, map[string]any{"control": "refactoring " + name, "result": "skipped: does not type-check"})
+					controls = append(controls, map[string]any{"control": "refactoring " + res.name, "result": "skipped: " + res.skipped})
 					continue
 				}
 				var by []string
-				for _, ob := range obs {
-					r := pm.Run(ob)
-					for _, v := range r.Viols {
-						known := false
-						for _, k := range kf.Findings {
-							if k.Property == id && k.Key == v.Key && k.Status == "known" {
-								known = true
-							}
-						}
-						onBase := false
-						for _, bv := range violOut {
-							if bv.Key == v.Key {
-								onBase = true
-							}
-						}
-						if !known && !onBase {
-							by = append(by, v.Key)
+				for _, k := range res.keys {
+					base := false
+					for _, bv := range violOut {
+						if bv.Key == k {
+							base = true
 						}
 					}
+					if !base {
+						by = append(by, k)
+					}
 				}
-				props.Forget(pm)
-				pm = nil
-				kit.Current = prog
-				runtime.GC()
 				if len(by) == 0 {
 					quiet++
-					controls = append(controls, map[string]any{"control": "refactoring " + name, "result": "silent (as required)"})
+					controls = append(controls, map[string]any{"control": "refactoring " + res.name, "result": "silent (as required)"})
 				} else {
 					noisy++
-					fmt.Printf("  control %s (behaviour-preserving refactoring): FALSE ALARM %s\n", name, by[0])
-					controls = append(controls, map[string]any{"control": "refactoring " + name, "result": "false alarm", "by": by})
+					fmt.Printf("  control %s (behaviour-preserving refactoring): FALSE ALARM %s\n", res.name, by[0])
+					controls = append(controls, map[string]any{"control": "refactoring " + res.name, "result": "false alarm", "by": by})
 				}
 			}
 			fmt.Printf("  thorough: %d refactoring controls silent, %d raised a false alarm, %d skipped\n", quiet, noisy, skippedR)
